@@ -29,6 +29,9 @@ logger = get_logger(__name__)
 # Connection timeout in seconds
 REQUEST_TIMEOUT = 30.0
 
+# Maximum size of the <META> field of a response header, in bytes
+MAX_META_SIZE = 1024
+
 
 class GeminiServerProtocol(asyncio.Protocol):
     """Server-side protocol for handling Gemini and Titan requests.
@@ -82,6 +85,8 @@ class GeminiServerProtocol(asyncio.Protocol):
         self.peer_name: tuple[str, int] | None = None
         self.request_start_time: float | None = None
         self.timeout_handle: asyncio.TimerHandle | None = None
+        # Set once a response has been written: a connection gets exactly one
+        self._response_sent = False
 
         # Titan-specific state
         self.titan_request: TitanRequest | None = None
@@ -243,8 +248,47 @@ class GeminiServerProtocol(asyncio.Protocol):
         Args:
             response: The response to send.
         """
-        if not self.transport:
+        if not self.transport or self._response_sent:
             return
+
+        # Whatever a handler returned, what goes on the wire must be a valid
+        # Gemini response: "<status> <meta>\r\n" with a two-digit status, a
+        # single-line meta of at most 1024 bytes, and a body only after 2x.
+        # Everything is encoded before the first write so that a failure can
+        # never leave a half-written response behind.
+        status = response.status
+        meta = response.meta
+        body_bytes = b""
+        try:
+            if isinstance(status, bool) or not isinstance(status, int):
+                raise ValueError("status is not an integer")
+            if not 10 <= status <= 69:
+                raise ValueError(f"status {status} out of range")
+            if not isinstance(meta, str):
+                raise ValueError("meta is not a string")
+            meta = meta.replace("\r", " ").replace("\n", " ")
+            meta_bytes = meta.encode("utf-8", errors="replace")
+            if len(meta_bytes) > MAX_META_SIZE:
+                meta_bytes = (
+                    meta_bytes[:MAX_META_SIZE]
+                    .decode("utf-8", errors="ignore")
+                    .encode("utf-8")
+                )
+            if 20 <= status <= 29 and response.body:
+                if isinstance(response.body, bytes):
+                    body_bytes = response.body
+                else:
+                    body_bytes = response.body.encode("utf-8", errors="replace")
+            header_bytes = str(status).encode("ascii") + b" " + meta_bytes + CRLF
+        except Exception as e:
+            logger.error(
+                "invalid_handler_response",
+                client_ip=self.peer_name[0] if self.peer_name else "unknown",
+                error=str(e),
+            )
+            status = StatusCode.TEMPORARY_FAILURE.value
+            header_bytes = b"40 Server error: invalid response from handler\r\n"
+            body_bytes = b""
 
         # Calculate request duration
         duration_ms = 0.0
@@ -255,23 +299,17 @@ class GeminiServerProtocol(asyncio.Protocol):
         logger.info(
             "request_completed",
             client_ip=self.peer_name[0] if self.peer_name else "unknown",
-            status=response.status,
-            path=response.url or "unknown",
-            body_size=len(response.body) if response.body else 0,
+            status=status,
+            path=getattr(response, "url", None) or "unknown",
+            body_size=len(body_bytes),
             duration_ms=round(duration_ms, 2),
         )
 
-        # Build response header: <STATUS><SPACE><META><CRLF>
-        header = f"{response.status} {response.meta}\r\n"
-        self.transport.write(header.encode("utf-8"))
-
-        # Send body if present (only for 2x success responses)
-        # FIX: Handle both text (str) and binary (bytes) content
-        if response.body:
-            if isinstance(response.body, bytes):
-                self.transport.write(response.body)
-            else:
-                self.transport.write(response.body.encode("utf-8"))
+        # Header line, then the body (only for 2x success responses)
+        self._response_sent = True
+        self.transport.write(header_bytes)
+        if body_bytes:
+            self.transport.write(body_bytes)
 
         # Close connection (Gemini/Titan: one request per connection)
         self.transport.close()
@@ -291,7 +329,11 @@ class GeminiServerProtocol(asyncio.Protocol):
 
     def _handle_timeout(self) -> None:
         """Handle request timeout."""
-        if self.transport and not self.transport.is_closing():
+        if (
+            self.transport
+            and not self.transport.is_closing()
+            and not self._response_sent
+        ):
             if self.request_start_time:
                 duration = time.time() - self.request_start_time
             else:
@@ -303,6 +345,7 @@ class GeminiServerProtocol(asyncio.Protocol):
             )
             # Send timeout response
             response = "40 Request timeout\r\n"
+            self._response_sent = True
             self.transport.write(response.encode("utf-8"))
             self.transport.close()
 
@@ -428,10 +471,9 @@ class GeminiServerProtocol(asyncio.Protocol):
             allow, error_response = task.result()
 
             if not allow:
-                # Middleware rejected request - send error response
-                if self.transport and error_response:
-                    self.transport.write(error_response.encode("utf-8"))
-                    self.transport.close()
+                # Middleware rejected request - send its response line through
+                # the common writer (one validated response, then close)
+                self._send_rejection(error_response)
                 return
 
             # Middleware allowed request - continue routing
@@ -445,6 +487,28 @@ class GeminiServerProtocol(asyncio.Protocol):
                 exception_type=type(e).__name__,
             )
             self._send_error_response(StatusCode.TEMPORARY_FAILURE, "Middleware error")
+
+    def _send_rejection(self, error_response: str | None) -> None:
+        """Send the response line a middleware returned with its rejection.
+
+        Args:
+            error_response: "<status> <meta>\\r\\n" as built by the middleware, or
+                None/empty if it gave none (answered with 40 then, never silence).
+        """
+        try:
+            if not error_response:
+                raise ValueError("no response")
+            line = error_response.removesuffix("\n").removesuffix("\r")
+            status_text, _, meta = line.partition(" ")
+            if not (status_text.isascii() and status_text.isdigit()):
+                raise ValueError("no status")
+            response = GeminiResponse(status=int(status_text), meta=meta)
+        except ValueError:
+            self._send_error_response(
+                StatusCode.TEMPORARY_FAILURE, "Request rejected"
+            )
+            return
+        self._send_response(response)
 
     def connection_lost(self, exc: Exception | None) -> None:
         """Called when the connection is closed.
